@@ -1127,13 +1127,194 @@ func prepareAddresses(sp *Spec, inst *insts.Inst, r *vh.Rng) {
 	}
 }
 
+// structPerm draws from the family of lane permutations that matter for
+// memory access patterns.  kind: 0 ends fixed + middle shuffled, 1 reversal,
+// 2 bit reversal, 3 swap of two middle lanes, 4 rotation, 5 swap within
+// pairs, 6 identity; kind < 0 picks one at random (never the identity).
+func structPerm(r *vh.Rng, kind int) []int {
+	p := make([]int, nLanes)
+	for i := range p {
+		p[i] = i
+	}
+	if kind < 0 {
+		kind = r.Pick(30, 15, 15, 15, 15, 10)
+	}
+	switch kind {
+	case 0:
+		for i := nLanes - 2; i > 1; i-- {
+			j := 1 + r.Intn(i)
+			p[i], p[j] = p[j], p[i]
+		}
+		if p[1] == 1 && p[2] == 2 { // make sure the middle really moves
+			p[1], p[2] = 2, 1
+		}
+	case 1:
+		for i := range p {
+			p[i] = nLanes - 1 - i
+		}
+	case 2:
+		for i := range p {
+			v := 0
+			for b := 0; b < 6; b++ {
+				v |= (i >> uint(b) & 1) << uint(5-b)
+			}
+			p[i] = v
+		}
+	case 3:
+		a := 1 + r.Intn(62)
+		b := 1 + r.Intn(62)
+		if a == b {
+			b = 1 + a%62
+		}
+		p[a], p[b] = p[b], p[a]
+	case 4:
+		k := 1 + r.Intn(63)
+		for i := range p {
+			p[i] = (i + k) % nLanes
+		}
+	case 5:
+		for i := range p {
+			p[i] = i ^ 1
+		}
+	}
+	return p
+}
+
+// accessWidth: bytes of one element a lane moves (the stride of a "coalesced"
+// access), from the instruction name.
+func accessWidth(inst *insts.Inst) uint32 {
+	n := inst.InstName
+	for _, e := range []struct {
+		suffix string
+		w      uint32
+	}{{"dwordx4", 16}, {"dwordx3", 12}, {"dwordx2", 8}, {"dword", 4}, {"short", 2}, {"byte", 1},
+		{"_b128", 16}, {"_b64", 8}, {"_b32", 4}, {"_b16", 2}, {"_b8", 1}} {
+		if strings.Contains(n, e.suffix) {
+			return e.w
+		}
+	}
+	return 4
+}
+
+// contiguousAddresses lays the lanes out as base + stride*sigma(lane): the
+// pattern "ptr + width*global_id" and its permutations (gather / scatter of
+// an FFT, reversal, rotation).  With keepInactive the inactive lanes hold
+// their contiguous address too, otherwise they point into the poison region.
+func contiguousAddresses(sp *Spec, inst *insts.Inst, r *vh.Rng, sigma []int, stride uint32, keepInactive bool) {
+	if inst.Addr == nil || inst.Addr.Register == nil || !inst.Addr.Register.IsVReg() {
+		return
+	}
+	ai := inst.Addr.Register.RegIndex()
+	guarded := sp.LDSSz == ldsSize
+	switch inst.FormatType {
+	case insts.DS:
+		base := uint32(r.Intn(64)) * 16
+		if !guarded {
+			if stride > 8 {
+				stride = 8
+			}
+			base = uint32(r.Intn(4)) * 8
+		}
+		for l := 0; l < nLanes; l++ {
+			a := base + stride*uint32(sigma[l])
+			if guarded && !bit(sp.Exec, l) && !keepInactive {
+				a = ldsPoison + uint32(r.Intn(4096))
+			}
+			sp.VGPR[l][ai] = a
+		}
+	case insts.FLAT:
+		wide := inst.Addr.RegCount == 2
+		if !wide {
+			s := int(inst.SAddr.IntValue)
+			if s+1 < nSRegs {
+				sp.SGPR[s], sp.SGPR[s+1] = 0x40000000+uint32(r.Intn(256))*4, 0x00002000
+			}
+		}
+		base := 0x1000 + uint32(r.Intn(256))*16
+		for l := 0; l < nLanes; l++ {
+			lo := base + stride*uint32(sigma[l])
+			poison := guarded && !bit(sp.Exec, l) && !keepInactive
+			if wide {
+				hi := uint32(flatActiveHi)
+				if poison {
+					hi = flatPoisonHi
+				}
+				sp.VGPR[l][ai] = lo
+				if ai+1 < nVRegs {
+					sp.VGPR[l][ai+1] = hi
+				}
+			} else {
+				if poison {
+					lo |= 0x80000000
+				}
+				sp.VGPR[l][ai] = lo
+			}
+		}
+	}
+}
+
+// contiguousCase turns the spec of a memory / LDS instruction into one of the
+// contiguous-pattern cases.  sched 0..7 is a fixed schedule run for every such
+// handler (so that the important combinations never depend on luck), sched < 0
+// draws everything at random.
+func contiguousCase(sp *Spec, inst *insts.Inst, r *vh.Rng, sched int) {
+	w := accessWidth(inst)
+	stride := w
+	sigmaKind, piKind := 6, -1
+	exec := ^uint64(0)
+	keep := r.Bool()
+	switch sched {
+	case 0: // the plain coalesced pattern; the permuted run keeps the end lanes
+		piKind = 0
+	case 1:
+		piKind = 3
+	case 2: // gather with fixed end lanes in the first run already
+		sigmaKind, piKind = 0, 4
+	case 3: // descending addresses; the permuted run is ascending
+		sigmaKind, piKind = 1, 1
+	case 4:
+		piKind = 2
+	case 5: // dword stride whatever the width (sub-dword and multi-dword ops)
+		stride, piKind = 4, 0
+	case 6: // partial EXEC: a prefix, end lanes of the active range kept
+		exec, piKind = (uint64(1)<<uint(8+r.Intn(56)))-1, 0
+	case 7: // partial EXEC: one middle lane off
+		exec, piKind = ^(uint64(1) << uint(1+r.Intn(62))), 0
+	default:
+		sigmaKind = []int{6, 6, 6, 0, 1, 2, 3, 4, 5}[r.Intn(9)]
+		if r.Intn(5) == 0 {
+			stride = []uint32{1, 2, 4, 8, 16}[r.Intn(5)]
+		}
+		switch r.Pick(55, 15, 10, 10, 10) {
+		case 1:
+			exec = (uint64(1) << uint(1+r.Intn(63))) - 1
+		case 2:
+			exec = ^(uint64(1) << uint(r.Intn(64)))
+		case 3:
+			exec = r.U64() | 1 | 1<<63
+		case 4:
+			exec = r.U64()
+		}
+	}
+	sp.Exec = exec
+	contiguousAddresses(sp, inst, r, structPerm(r, sigmaKind), stride, keep)
+	sp.Perm = structPerm(r, piKind)
+}
+
 func sdwaWord(r *vh.Rng, src0 uint32) uint32 {
 	sel := func() uint32 { return uint32(r.Intn(7)) }
 	return src0&0xff | sel()<<8 | uint32(r.Intn(3))<<11 | sel()<<16 | sel()<<24
 }
 
 // genVector produces the spec of one random case for handler h.
-func genVector(h *Handler, r *vh.Rng) Spec {
+func genVector(h *Handler, r *vh.Rng) Spec { return genVectorN(h, r, -1) }
+
+// contigScheduled is the number of scheduled contiguous-pattern cases that open
+// the case stream of every FLAT / DS handler.
+const contigScheduled = 8
+
+// genVectorN: case number k of the stream of handler h (k < 0: no schedule).
+func genVectorN(h *Handler, r *vh.Rng, k int) Spec {
 	sp := Spec{ALU: h.ALU, Fmt: h.Fmt, Opcode: h.Opcode, Name: h.Name, Direct: h.Direct, Mask: -1, LDSSz: ldsSize, Excpt: h.Excpt}
 	randomState(&sp, r)
 	key := fmt.Sprintf("%s/%d", h.Fmt, h.Opcode)
@@ -1204,6 +1385,15 @@ func genVector(h *Handler, r *vh.Rng) Spec {
 		if inst != nil {
 			prepareAddresses(&sp, inst, r)
 		}
+		sp.Perm = randPerm(r)
+		if inst != nil && (h.Fmt == "flat" || h.Fmt == "ds") && !h.Excpt {
+			if k >= 0 && k < contigScheduled {
+				contiguousCase(&sp, inst, r, k)
+			} else if r.Intn(3) == 0 {
+				contiguousCase(&sp, inst, r, -1)
+			}
+		}
+		return sp
 	}
 	sp.Perm = randPerm(r)
 	return sp
@@ -1377,13 +1567,13 @@ func genCorr(h *Handler, hid string, r *vh.Rng) Spec {
 			}
 		}
 		if ok {
-			if inst.FormatType == insts.DS {
-				sp.LDSSz = corrLDS
-				prepareAddresses(&sp, inst, r)
-			}
-			if inst.FormatType == insts.FLAT {
-				sp.LDSSz = corrLDS // switches the poison placement off as well
-				prepareAddresses(&sp, inst, r)
+			if inst.FormatType == insts.DS || inst.FormatType == insts.FLAT {
+				sp.LDSSz = corrLDS // small LDS shipped to Coq; also switches the poison placement off
+				if r.Intn(3) == 0 {
+					contiguousCase(&sp, inst, r, -1)
+				} else {
+					prepareAddresses(&sp, inst, r)
+				}
 			}
 			return sp
 		}
@@ -1544,7 +1734,7 @@ func main() {
 				if h.Scalar {
 					r = runScalarCase(genScalar(h, cr))
 				} else {
-					r = runVectorCase(genVector(h, cr))
+					r = runVectorCase(genVectorN(h, cr, i))
 				}
 				h.Cases++
 				if r.Crash != "" {
